@@ -748,6 +748,15 @@ pub fn check_c10(h: &Hist) -> POut {
     if !h.built_ok {
         return out;
     }
+    // wait() on another cache of the same process, called from this cache's callback (i.e. from
+    // its processor thread), is a barrier for that cache like any other wait()
+    for e in h.evs.iter() {
+        if let EvKind::Note(s) = &e.kind {
+            if s.starts_with("decoy-wait-barrier-failed") {
+                out.violations.push(viol("C10", "R1-wait-not-a-barrier-on-a-second-cache", e.seq, "wait() on a second cache, called from a callback of the first, returned before the insert made just before it was applied", s.clone()));
+            }
+        }
+    }
     let clears: Vec<&OpRec> = h.ops.iter().filter(|o| matches!(o.op, Op::Clear | Op::Close)).collect();
     for w in h.ops.iter().filter(|o| matches!(o.op, Op::Wait)) {
         if clears.iter().any(|c| c.inv_seq < w.ret_seq_or_max() && c.ret_seq_or_max() > w.inv_seq) {
@@ -790,7 +799,8 @@ pub fn check_c10(h: &Hist) -> POut {
                     if !in_place && !consumed && !had_cb && !cleared {
                         out.violations.push(viol("C10", "R1-insert-not-applied", w.ret_seq.unwrap(), "wait() returned Ok before an earlier accepted insert of the same thread was applied or discarded", format!("client {} op#{} {:?} value {:?}: its item was not consumed by the processor before wait returned at seq {} (resident={})", w.client, o.idx, o.op, v, w.ret_seq.unwrap(), resident)));
                     }
-                    let processor_idle = cp.snap.tasks.iter().any(|(n, s)| n.starts_with("processor") && (s == "blocked:select" || s == "blocked:await"));
+                    // (the cache under test: a decoy cache's workers carry a "#n" suffix)
+                    let processor_idle = cp.snap.tasks.iter().any(|(n, s)| n.starts_with("processor") && !n.contains('#') && (s == "blocked:select" || s == "blocked:await"));
                     if resident && processor_idle && !cleared && !pol.iter().any(|(k, _)| *k == idx) && !later_on_key && !overlapping {
                         out.violations.push(viol("C10", "R1-resident-not-charged", w.ret_seq.unwrap(), "wait() returned Ok with the processor idle while an applied insert of the same thread is resident but not charged", format!("client {} op#{} {:?}", w.client, o.idx, o.op)));
                     }
